@@ -220,6 +220,31 @@ func (e *Engine) VerifyFunc(fc *FuncContract) *FuncResult {
 		o := c.obligation("cover", "return", fn.Pos(), "some return is reachable under the preconditions", "true", or(retReach...), nil)
 		o.Cover = true
 	}
+	// known findings: attach the witness exclusion to matching obligations
+	if e.known != nil {
+		for _, o := range c.obls {
+			for _, kf := range e.known.Findings {
+				if (e.curProp == "" || kf.Property == e.curProp || true) && kf.matches(o, e.curProp) {
+					w, err := ParseExpr(kf.Witness)
+					if err != nil {
+						c.errorf("known finding witness %q: %v", kf.Witness, err)
+						continue
+					}
+					g, err := en.EvalBool(w)
+					if err != nil {
+						c.errorf("known finding witness %q: %v", kf.Witness, err)
+						continue
+					}
+					if o.Excl == "" {
+						o.Excl = g
+					} else {
+						o.Excl = or(o.Excl, g)
+					}
+					o.KF = kf
+				}
+			}
+		}
+	}
 	res.Obls = c.obls
 	res.Abstr = c.abstr
 	res.Errs = c.errs
